@@ -3,7 +3,7 @@ from __future__ import annotations
 
 import infretis.classes.path as ipath
 from infretis.classes.system import System
-from symx import npfacade
+from symx import core, npfacade
 from symx.stubs import mk_path, orders_of, tags_of
 
 PROPERTIES = ["C15"]
@@ -99,6 +99,7 @@ def _paste(ctx, sh):
     try:
         new = ipath.paste_paths(back, forw, overlap=overlap, **args)
     except Exception as e:
+        core.reraise_if_proxy_limitation(e)
         ctx.fail("C15:paste-no-exception", repr(e))
         return
     full = [("B", i) for i in reversed(range(a))] + [("F", i) for i in range(1 if overlap else 0, b)]
@@ -155,6 +156,7 @@ def _reverse(ctx, sh):
         r1 = path.reverse(of, rev_v=rev_v)
         r2 = r1.reverse(of, rev_v=rev_v)
     except Exception as e:
+        core.reraise_if_proxy_limitation(e)
         ctx.fail("C15:reverse-no-exception", repr(e))
         return
     ctx.check(tags_of(r1) == list(reversed(tags_of(path))), "C15:reverse-frame-order")
@@ -250,6 +252,7 @@ def _classify(ctx, sh):
         omin, omax = path.ordermin, path.ordermax
         succ = path.success(mid)
     except Exception as e:
+        core.reraise_if_proxy_limitation(e)
         ctx.fail("C15:classify-no-exception", repr(e))
         return
     # oracle from extreme values
